@@ -233,5 +233,6 @@ func Run(c *hx.Ctx) {
 	for i := 0; i < c.N(3000, 60000); i++ {
 		runTimeout(c, c.Rng)
 	}
+	runPart3(c) // kind fz (c17r5.go)
 	runPart2(c) // kinds rw, rd, rt (c17b.go)
 }
